@@ -870,8 +870,22 @@ def necessity_copies(m, text, skip=()):
         sig2 = re.sub(r'\bensures\b.*?(?=' + re.escape(GCLOSE) + ')', '', sig2, flags=re.S)
         sig2 = re.sub(r'fn %s\b' % re.escape(fn), 'fn %s__nec_%s' % (fn, nid), sig2, count=1)
         copy = '\n    #[allow(dead_code)] ' + sig2 + out[body:end + 1] + '\n'
-        out = out[:end + 1] + GOPEN + copy.replace(GOPEN, '').replace(GCLOSE, '') + GCLOSE + out[end + 1:]
+        # refusal copy: the same body under the NEGATED conjunct with `ensures false`.  It must fail, and fail only at the
+        # documented panic: a "postcondition not satisfied" there means some call outside the precondition returns normally.
+        sig3 = sig.replace(drop, '!(' + drop + ')', 1)
+        sig3 = re.sub(r'\bensures\b.*?(?=' + re.escape(GCLOSE) + ')', 'ensures false, ', sig3, count=1, flags=re.S)
+        sig3 = re.sub(r'fn %s\b' % re.escape(fn), 'fn %s__ref_%s' % (fn, nid), sig3, count=1)
+        if 'ensures false' not in sig3:
+            # a contract without ensures (e.g. only requires): add one in front of the body
+            sig3 = sig3.rstrip()
+            if sig3.endswith(GCLOSE):
+                sig3 = sig3[:-len(GCLOSE)] + ' ensures false, ' + GCLOSE
+            else:
+                sig3 = sig3 + ' ensures false, '
+        copy3 = '\n    #[allow(dead_code)] ' + sig3 + out[body:end + 1] + '\n'
+        out = out[:end + 1] + GOPEN + copy.replace(GOPEN, '').replace(GCLOSE, '') + copy3.replace(GOPEN, '').replace(GCLOSE, '') + GCLOSE + out[end + 1:]
         made.append('%s::%s::%s__nec_%s' % (mod, ty, fn, nid))
+        made.append('%s::%s::%s__ref_%s' % (mod, ty, fn, nid))
     return out, made
 
 def fn_occurrences(g, name):
